@@ -72,6 +72,13 @@ Inductive case :=
    impl_in / impl_or = the two ASTs with every distinct literal numbered (same numbering in both) *)
 | CInOr (qin qor : bytes) (cls : list (N * N)) (user builtin : list (bytes * N))
         (impl_in impl_or : res ast)
+(* one range filter qr = f:[a, b] (any bracket/separator form) and the two plain keyword literals
+   qa = f':a, qb = f':b of the same written bounds (f' = f for keyword/path fields and _exists_,
+   otherwise a keyword field), all parsed by the real ParseSeqQL with conf.CaseSensitive = cfg;
+   impl_r = (From, To) of the returned Range, impl_a / impl_b = Terms of the returned Literals
+   (None = error or another node). low = unicode.ToLower of the runes of this case (oracle) *)
+| CRange (qr qa qb : bytes) (cls low : list (N * N)) (cfg : bool)
+         (impl_r : option (term * term)) (impl_a impl_b : option (list term))
 | CRound (expected : list ltok) (input : bytes) (cls : list (N * N)) (impl_toks : list ltok).
 
 Definition T := mkTok.
@@ -109,7 +116,7 @@ Definition lex_case (cls : list (N * N)) (input : bytes) : R (list ltok) :=
 Definition parse_case (cls : list (N * N)) (nilmap : bool) (user builtin : list (bytes * N))
            (input : bytes) : R ast :=
   seqql_parse (cls_bit cls 0) (cls_bit cls 1) (cls_bit cls 2) (cls_bit cls 3)
-              (mk_ftype nilmap user builtin) input.
+              (mk_ftype nilmap user builtin) (fun r => r) false input.
 
 Definition toks_agree (m : R (list ltok)) (impl : list ltok) : bool :=
   match m with ROk l => list_eqb ltok_eqb l impl | _ => false end.
@@ -132,6 +139,28 @@ Fixpoint erase (t : ast) : ast :=
   end.
 Definition erase_res (r : res ast) : res ast :=
   match r with Ok t => Ok (erase t) | Err => Err | OutOfFuel => OutOfFuel end.
+
+Definition term_eqb (a b : term) : bool :=
+  match a, b with
+  | TmText x, TmText y => bytes_eqb x y
+  | TmSym, TmSym => true
+  | _, _ => false
+  end.
+Definition low_fun (low : list (N * N)) (r : N) : N :=
+  match lookupN r low with Some x => x | None => r end.
+Definition view_eqb {A} (eqb : A -> A -> bool) (m : R A) (impl : option A) : bool :=
+  match m, impl with
+  | ROk x, Some y => eqb x y
+  | RErr, None => true
+  | _, _ => false
+  end.
+Definition pair_term_eqb (a b : term * term) : bool :=
+  term_eqb (fst a) (fst b) && term_eqb (snd a) (snd b).
+(* the literal has exactly the one term t *)
+Definition is_single (t : term) (l : option (list term)) : bool :=
+  match l with Some [x] => term_eqb x t | _ => false end.
+Definition has_single (l : option (list term)) : bool :=
+  match l with Some [_] => true | _ => false end.
 
 Definition ltok_wf (t : ltok) : bool :=
   t_quoted t || match t_txt t with [] => false | _ => true end.
@@ -157,6 +186,13 @@ Definition case_agrees (c : case) : bool :=
   | CInOr qin qor cls user builtin impl_in impl_or =>
       rres_eqb (parse_case cls false user builtin qin) (erase_res impl_in)
       && rres_eqb (parse_case cls false user builtin qor) (erase_res impl_or)
+  | CRange qr qa qb cls low cfg impl_r impl_a impl_b =>
+      let il := cls_bit cls 1 in let id := cls_bit cls 2 in
+      view_eqb pair_term_eqb (do l <- lex_case cls qr; range_view il id (low_fun low) cfg l) impl_r
+      && view_eqb (list_eqb term_eqb)
+                  (do l <- lex_case cls qa; literal_view il id (low_fun low) cfg l) impl_a
+      && view_eqb (list_eqb term_eqb)
+                  (do l <- lex_case cls qb; literal_view il id (low_fun low) cfg l) impl_b
   | CRound _ input cls impl_toks => toks_agree (lex_case cls input) impl_toks
   end.
 
@@ -182,6 +218,14 @@ Definition case_spec_ok (c : case) : bool :=
       | Ok a, Ok b => forallb (fun v => Bool.eqb (eval v a) (eval v b)) (valuations 8)
       | Err, Err => true
       | _, _ => false
+      end
+  | CRange _ _ _ _ _ _ impl_r impl_a impl_b =>
+      (* a range bound is normalised like a literal: the stored bounds are the single terms of the
+         plain literals of the same written values; a range is rejected only if a bound is not a
+         single term *)
+      match impl_r with
+      | Some (f, t) => is_single f impl_a && is_single t impl_b
+      | None => negb (has_single impl_a && has_single impl_b)
       end
   | CRound expected _ _ impl_toks => list_eqb ltok_eqb expected impl_toks
   end.
